@@ -272,10 +272,30 @@ def _lift_num(x, want_real):
     return None
 
 
+FLOAT_MODE = {'mode': 'R'}
+
+
+def _f_mode_mix(a, b):
+    """In F-mode a symbolic integer meeting a Python float behaves as a double."""
+    return FLOAT_MODE['mode'] == 'F' and (isinstance(a, float) or isinstance(b, float))
+
+
+_FOPS = {'add': '__add__', 'sub': '__sub__', 'mul': '__mul__', 'truediv': '__truediv__', 'mod': '__mod__'}
+
+
 def _arith(a, b, op, rev=False):
     """Binary arithmetic in R-mode between proxies / concrete numbers."""
     if isinstance(b, SymF64) or isinstance(a, SymF64):
         return NotImplemented
+    if _f_mode_mix(a, b):
+        x, y = (b, a) if rev else (a, b)
+        x = SymF64(_lift_f64(x)) if isinstance(x, Sym) else x
+        y = SymF64(_lift_f64(y)) if isinstance(y, Sym) else y
+        if op in _FOPS:
+            if isinstance(x, SymF64):
+                return getattr(x, _FOPS[op])(y)
+            return getattr(y, _FOPS[op].replace('__', '__r', 1))(x)
+        raise ShimGap('F-mode %s between int proxy and float' % op)
     za = _lift_num(a, False)
     zb = _lift_num(b, False)
     if za is None or zb is None:
@@ -358,6 +378,14 @@ def _small(r):
 def _cmp(a, b, op):
     if isinstance(b, SymF64) or isinstance(a, SymF64):
         return NotImplemented
+    if _f_mode_mix(a, b):
+        x = SymF64(_lift_f64(a)) if isinstance(a, Sym) else a
+        y = SymF64(_lift_f64(b)) if isinstance(b, Sym) else b
+        pyop = {'lt': '__lt__', 'le': '__le__', 'gt': '__gt__', 'ge': '__ge__', 'eq': '__eq__', 'ne': '__ne__'}[op]
+        swap = {'__lt__': '__gt__', '__le__': '__ge__', '__gt__': '__lt__', '__ge__': '__le__', '__eq__': '__eq__', '__ne__': '__ne__'}
+        if isinstance(x, SymF64):
+            return getattr(x, pyop)(y)
+        return getattr(y, swap[pyop])(x)
     za = _lift_num(a, False)
     zb = _lift_num(b, False)
     if za is None or zb is None:
@@ -545,7 +573,7 @@ def _lift_f64(x):
         return z3.FPVal(float(x), F64())
     if isinstance(x, SymInt):
         # exact for |x| < 2**53 (harnesses bound their integers accordingly)
-        return z3.fpToFP(_rne(), z3.ToReal(x.z), F64())
+        return _int_term_to_fp(x.z)
     try:
         import numpy as _np
         if isinstance(x, _np.generic):
@@ -553,6 +581,29 @@ def _lift_f64(x):
     except ImportError:
         pass
     return None
+
+
+def _int_term_to_fp(z):
+    """Exact Float64 image of an integer term.  Integer variables declared with
+    Engine.fint have a bit-vector twin, so that the conversion is a signed
+    bit-vector -> double conversion (which bit-blasts) instead of Int -> Real -> FP;
+    sums and constant multiples are mapped to exact floating-point operations
+    (all values stay far below 2**53 by the harness bounds)."""
+    z = z3.simplify(z)
+    if z3.is_int_value(z):
+        return z3.FPVal(float(z.as_long()), F64())
+    atoms = _ENGINE.fp_atoms if _ENGINE is not None else {}
+    if z3.is_const(z) and z.decl().name() in atoms:
+        return atoms[z.decl().name()]
+    if z3.is_add(z):
+        parts = [_int_term_to_fp(c) for c in z.children()]
+        acc = parts[0]
+        for p in parts[1:]:
+            acc = z3.fpAdd(_rne(), acc, p)
+        return acc
+    if z3.is_mul(z) and len(z.children()) == 2 and z3.is_int_value(z.children()[0]):
+        return z3.fpMul(_rne(), z3.FPVal(float(z.children()[0].as_long()), F64()), _int_term_to_fp(z.children()[1]))
+    return z3.fpToFP(_rne(), z3.ToReal(z), F64())
 
 
 def _fp_to_py(z):
@@ -703,6 +754,25 @@ class SymF64(Sym):
         return wrap(z3.ToInt(r))
 
 
+class SymFInt(SymF64):
+    """An integer obtained from a double (int(x), round(x)): kept as the integral-valued
+    Float64 term so that obligations about it stay inside QF_BVFP.  Hashing it (dict
+    lookup) calls the engine's hash hook, where a harness states its obligation."""
+    __slots__ = ()
+
+    def __hash__(self):
+        hook = engine().hash_hook
+        if hook is None:
+            raise ShimGap('hash of an integer derived from a symbolic double')
+        return hook(self)
+
+    def __index__(self):
+        return self.__hash__()
+
+    def __int__(self):
+        raise ShimGap('int() of SymFInt (rebind int)')
+
+
 def py_float_mod(x, y):
     """z3 term for CPython's float ``x % y`` (y != 0)."""
     r = z3.fpRem(x, y)  # IEEE remainder (round-to-nearest quotient) -- NOT fmod
@@ -781,8 +851,10 @@ class Stats:
 class Engine:
     """One engine per worker process; explores paths of one harness."""
 
-    def __init__(self, query_timeout_ms=20000, logic=None, max_decisions=200000):
+    def __init__(self, query_timeout_ms=20000, logic=None, max_decisions=200000, oneshot_tactic=None):
         self.query_timeout_ms = query_timeout_ms
+        self.oneshot_tactic = oneshot_tactic
+        self.hash_hook = None
         self.solver = z3.Solver() if logic is None else z3.SolverFor(logic)
         self.solver.set('timeout', query_timeout_ms)
         self.stats = Stats()
@@ -791,6 +863,8 @@ class Engine:
         self.reset_path(())
         self.uf_cache = {}
         self.functions_seen = set()
+        self.fp_atoms = {}
+        self.fp_bv = {}
 
     # ---- path life-cycle -------------------------------------------------
     def reset_path(self, prefix):
@@ -805,6 +879,8 @@ class Engine:
         self.axioms_added = set()
         self.lazy = []
         self._uniq = 0
+        self.fp_atoms = {}
+        self.fp_bv = {}
 
     def begin(self, prefix):
         self.reset_path(prefix)
@@ -827,6 +903,62 @@ class Engine:
     def bool(self, name):
         return self._register(name, SymBool(z3.Bool(name)))
 
+    def fint(self, name, lo, hi, bits=64):
+        """Symbolic integer lo <= x <= hi for F-mode harnesses.
+
+        The Int constant is only a syntactic carrier (sums and differences of epochs
+        are simplified structurally); the solver sees its bit-vector twin, so that
+        conversions to double are signed-bit-vector -> Float64 conversions and the
+        whole path condition stays inside QF_BVFP.  Constraints on such integers must
+        be stated on the twins (``fbv``)."""
+        x = z3.Int(name)
+        bv = z3.BitVec(name + '!bv', bits)
+        self.fp_atoms[name] = z3.fpSignedToFP(_rne(), bv, F64())
+        self.fp_bv[name] = bv
+        self.solver.add(bv >= lo, bv <= hi)
+        return self._register(name, SymInt(x))
+
+    def fbv(self, name):
+        return self.fp_bv[name]
+
+    def prove_oneshot(self, cond, label, detail=None, tactic='qffp', timeout_ms=None):
+        """Obligation decided by a fresh non-incremental solver built from a tactic
+        (bit-blasting for QF_BVFP is far faster outside the incremental core)."""
+        self.stats.obligations += 1
+        z = z3.simplify(zbool(cond))
+        if z3.is_true(z):
+            self.stats.discharged += 1
+            self.stats.structural += 1
+            return True
+        s = z3.Tactic(tactic).solver()
+        s.set('timeout', timeout_ms or self.query_timeout_ms)
+        for a in self.solver.assertions():
+            s.add(a)
+        s.add(z3.Not(z))
+        t0 = time.perf_counter()
+        r = str(s.check())
+        self.stats.solver_s += time.perf_counter() - t0
+        if r == 'unsat':
+            self.stats.q_unsat += 1
+            self.stats.discharged += 1
+            return True
+        if r == 'sat':
+            self.stats.q_sat += 1
+            self.stats.failed += 1
+            m = s.model()
+            out = self.model_of_inputs(m)
+            for name, bv in self.fp_bv.items():
+                v = m.eval(bv, model_completion=True)
+                out[name] = v.as_signed_long()
+            self.path_failures.append(Failure('obligation', label, out, detail if detail is not None else str(z)[:400],
+                                              tuple(self.decisions)))
+            return False
+        self.stats.q_unknown += 1
+        self.stats.inconclusive += 1
+        self.path_failures.append(Failure('inconclusive', label, None, 'solver answered unknown: ' + str(z)[:300],
+                                          tuple(self.decisions)))
+        return None
+
     def f64(self, name):
         return self._register(name, SymF64(z3.FP(name, F64())))
 
@@ -844,6 +976,8 @@ class Engine:
 
     # ---- solver ------------------------------------------------------------
     def _check(self, *extra):
+        if self.oneshot_tactic:
+            return self._check_oneshot(*extra)
         t0 = time.perf_counter()
         self.solver.push()
         try:
@@ -860,6 +994,27 @@ class Engine:
         elif res == 'unsat':
             self.stats.q_unsat += 1
         else:
+            self.stats.q_unknown += 1
+        return res, model
+
+    def _check_oneshot(self, *extra):
+        """Non-incremental query through a tactic (bit-blasting for QF_BVFP)."""
+        t0 = time.perf_counter()
+        s = z3.Tactic(self.oneshot_tactic).solver()
+        s.set('timeout', self.query_timeout_ms)
+        for a in self.solver.assertions():
+            s.add(a)
+        for e in extra:
+            s.add(e)
+        res = str(s.check())
+        model = s.model() if res == 'sat' else None
+        self.stats.solver_s += time.perf_counter() - t0
+        if res == 'sat':
+            self.stats.q_sat += 1
+        elif res == 'unsat':
+            self.stats.q_unsat += 1
+        else:
+            res = 'unknown'
             self.stats.q_unknown += 1
         return res, model
 
@@ -1021,6 +1176,11 @@ class Engine:
             except z3.Z3Exception:
                 continue
             out[name] = z3_value_to_py(val)
+        for name, bv in self.fp_bv.items():
+            try:
+                out[name] = model.eval(bv, model_completion=True).as_signed_long()
+            except (z3.Z3Exception, AttributeError):
+                pass
         return out
 
     def current_model(self, *extra):
@@ -1079,6 +1239,92 @@ class Engine:
             '%s: %s' % (type(exc).__name__, str(exc)[:300]),
             tuple(self.decisions), trace))
 
+    # ---- relational obligations over two runs (origin-cone decomposition) -----------
+    def prove_same_under_shift(self, t1, t2, shift_vars, label, detail=None, tactic='qffp',
+                               timeout_ms=None, retries=3):
+        """Obligation t1 == t2 where t1, t2 are the same computation at two origins.
+
+        1. structural: the terms simplify to the same term;
+        2. otherwise the maximal differing sub-terms that depend only on ``shift_vars``
+           (e.g. the epoch-dependent denominators) are compared on their own: if they
+           are provably equal the obligation follows by congruence; if the solver finds
+           origins where they differ, the origins are fixed to that model and the full
+           obligation is decided for those origins (a far smaller query).
+        Every solver call is a one-shot tactic solver."""
+        self.stats.obligations += 1
+        t1 = z3.simplify(t1)
+        t2 = z3.simplify(t2)
+        if t1.eq(t2):
+            self.stats.discharged += 1
+            self.stats.structural += 1
+            return True
+        timeout_ms = timeout_ms or self.query_timeout_ms
+        pairs = []
+        if not _cone_pairs(t1, t2, set(shift_vars), pairs):
+            pairs = None
+
+        def oneshot(*extra):
+            s = z3.Tactic(tactic).solver()
+            s.set('timeout', timeout_ms)
+            for a in self.solver.assertions():
+                s.add(a)
+            for e in extra:
+                s.add(e)
+            t0 = time.perf_counter()
+            r = str(s.check())
+            self.stats.solver_s += time.perf_counter() - t0
+            setattr(self.stats, 'q_' + (r if r in ('sat', 'unsat') else 'unknown'),
+                    getattr(self.stats, 'q_' + (r if r in ('sat', 'unsat') else 'unknown')) + 1)
+            return r, (s.model() if r == 'sat' else None)
+
+        def fail(model):
+            out = self.model_of_inputs(model)
+            for name, bv in self.fp_bv.items():
+                out[name] = model.eval(bv, model_completion=True).as_signed_long()
+            self.stats.failed += 1
+            self.path_failures.append(Failure('obligation', label, out, detail if detail is not None else str(t1)[:300],
+                                              tuple(self.decisions)))
+            return False
+
+        def inconclusive(why):
+            self.stats.inconclusive += 1
+            self.path_failures.append(Failure('inconclusive', label, None, why, tuple(self.decisions)))
+            return None
+
+        if pairs is None:
+            r, m = oneshot(t1 != t2)
+            if r == 'unsat':
+                self.stats.discharged += 1
+                return True
+            return fail(m) if r == 'sat' else inconclusive('full query: solver answered unknown')
+        all_equal = True
+        for (c1, c2) in pairs:
+            blocked = []
+            for attempt in range(retries):
+                r, m = oneshot(c1 != c2, *blocked)
+                if r == 'unsat':
+                    break
+                all_equal = False
+                if r != 'sat':
+                    break
+                fixed = [bv == m.eval(bv, model_completion=True) for bv in self.fp_bv.values()]
+                r2, m2 = oneshot(t1 != t2, *fixed)
+                if r2 == 'sat':
+                    return fail(m2)
+                blocked.append(z3.Not(z3.And(*fixed)))
+            if not all_equal and r != 'unsat':
+                pass
+        if all_equal:
+            self.stats.discharged += 1
+            return True
+        r, m = oneshot(t1 != t2)
+        if r == 'unsat':
+            self.stats.discharged += 1
+            return True
+        return fail(m) if r == 'sat' else inconclusive(
+            'origin-dependent sub-terms differ for some origins but no data completing a counterexample was found '
+            'within the time limit, and the full query answered unknown')
+
     def witness(self):
         """Model of the current path condition (for witness replay)."""
         res, model = self.nice_model()
@@ -1120,6 +1366,34 @@ class Engine:
         return wrap(r)
 
 
+def _free_consts(t, acc=None, seen=None):
+    acc = set() if acc is None else acc
+    seen = set() if seen is None else seen
+    if t.get_id() in seen:
+        return acc
+    seen.add(t.get_id())
+    if z3.is_const(t) and t.decl().kind() == z3.Z3_OP_UNINTERPRETED:
+        acc.add(t.decl().name())
+    for c in t.children():
+        _free_consts(c, acc, seen)
+    return acc
+
+
+def _cone_pairs(t1, t2, shift_names, out):
+    """Collect maximal differing sub-term pairs whose free symbols are shift variables.
+    Returns False when the two terms differ in shape at a node that involves data."""
+    if t1.eq(t2):
+        return True
+    f1, f2 = _free_consts(t1), _free_consts(t2)
+    if f1 <= shift_names and f2 <= shift_names:
+        if not any(a.eq(t1) and b.eq(t2) for a, b in out):
+            out.append((t1, t2))
+        return True
+    if z3.is_app(t1) and z3.is_app(t2) and t1.decl().eq(t2.decl()) and t1.num_args() == t2.num_args():
+        return all(_cone_pairs(a, b, shift_names, out) for a, b in zip(t1.children(), t2.children()))
+    return False
+
+
 def z3_value_to_py(val):
     v = _num_to_py(val)
     if v is not None:
@@ -1156,8 +1430,9 @@ def site_of_exception(exc, tb=None):
     out = []
     for fr in frames:
         fn = fr.filename
-        if fn.startswith('/repo/') or fn.startswith('<repo:'):
-            out.append('%s:%d:%s' % (fn.replace('<repo:', '').rstrip('>'), fr.lineno, fr.name))
+        root = os.environ.get('SPOWTD_REPO', '/repo').rstrip('/') + '/'
+        if fn.startswith(root):
+            out.append('%s:%d:%s' % ('/repo/' + fn[len(root):], fr.lineno, fr.name))
     return out[-4:]
 
 
